@@ -19,10 +19,10 @@ Theorem C11_include_total :
     resolve (S (length mods)) g [] items <> Crash.
 Proof. exact include_total. Qed.
 
-(* ... and a cycle ends in a reported error *)
+(* ... and a cycle ends in a reported error ([occ m]: include of m at any block nesting depth) *)
 Theorem C11_include_cycle_reported :
   forall (g : modgraph) fuel m body evs,
-    g m = Loaded body -> In (Inc m) body ->
+    g m = Loaded body -> existsb (occ m) body = true ->
     resolve fuel g [] [Inc m] = OK evs -> In (ECycle m) evs.
 Proof. exact include_cycle_reported. Qed.
 
